@@ -1,7 +1,7 @@
 /-
 Model A, for EVERY configuration in which filesystem errors are not fatal and extractors do not panic
 (any inode limit, any cancellation point, cancelled before the scan or not), is a plain sequential
-machine over the specification's trace of `handleFile` calls (`Spec/WalkCount.lean`):
+machine (`runT`, Spec/WalkMachine.lean) over the specification's trace of `handleFile` calls (`Spec/WalkCount.lean`):
 
   for each call of the trace, in order:   count the inode — fail with MaxInodes beyond the limit;
                                           report the visit — fail when the context is cancelled;
@@ -12,6 +12,7 @@ machine over the specification's trace of `handleFile` calls (`Spec/WalkCount.le
 corollaries about this machine.
 -/
 import Scalibr.Spec.WalkCount
+import Scalibr.Spec.WalkMachine
 import Scalibr.Proofs.WalkSpec
 import Scalibr.Proofs.WalkTop
 namespace Scalibr.Walk
@@ -19,47 +20,8 @@ namespace Scalibr.Walk
 /-- errors are not fatal, extractors do not panic; limit and cancellation are arbitrary -/
 def NFCfg (c : Cfg) : Prop := c.errorOnFSErrors = false ∧ ∀ e p, (c.extract e p).panics = false
 
-/-- the part of the engine state the machine talks about -/
-structure AS where
-  inodes : Nat
-  visited : Nat
-  extracts : Nat
-  cancelled : Bool
-  calls : List Call
-deriving DecidableEq, Repr
-
+/-- the part of the engine state the machine (Spec/WalkMachine.lean) talks about -/
 def abs (s : St) : AS := ⟨s.inodes, s.visited, s.extracts, s.cancelled, s.calls⟩
-
-/-- does one of the `Extract` calls number `x+1 … x+m` cancel the context? -/
-def hits (ca : Option Nat) (x m : Nat) : Bool :=
-  match ca with
-  | none => false
-  | some k => decide (x < k ∧ k ≤ x + m)
-
-/-- making the attempts of one `handleFile` call -/
-def aBlock (c : Cfg) (a : AS) (blk : List Call) : AS :=
-  { a with calls := a.calls ++ blk, extracts := a.extracts + openedCount blk,
-           cancelled := a.cancelled || hits c.cancelAt a.extracts (openedCount blk) }
-
-/-- the prologue of `handleFile` on the abstract state -/
-def aPro (c : Cfg) (a : AS) : AS × Option Err :=
-  let a := { a with inodes := a.inodes + 1 }
-  if c.maxInodes > 0 && a.inodes > c.maxInodes then (a, some .maxInodes) else
-  let a := { a with visited := a.visited + 1 }
-  if a.cancelled then (a, some .ctx) else (a, none)
-
-/-- one `handleFile` call -/
-def visit (c : Cfg) (a : AS) (blk : List Call) : AS × Err :=
-  match aPro c a with
-  | (a, some e) => (a, e)
-  | (a, none) => (aBlock c a blk, .none)
-
-/-- the machine: the calls of the trace in order, stopping at the first failure -/
-def runT (c : Cfg) : AS → List (List Call) → AS × Err
-  | a, [] => (a, .none)
-  | a, b :: rest =>
-    let r := visit c a b
-    if r.2 = .none then runT c r.1 rest else r
 
 end Scalibr.Walk
 
